@@ -1,6 +1,7 @@
 """C14 formatting preserves the program and is idempotent."""
-import glob, json, os, re
+import glob, json, os, re, time
 import vlib
+import c14grid
 from vlib import vh_batch, drv_batch, enc, dec
 import exprgen as G
 
@@ -13,7 +14,9 @@ MANIFEST = dict(
          "with the real formatter on every operator triple, on folding cases and on random trees; every generated source (all literal "
          "kinds, backtick identifiers, named arguments, nested pipelines, functions, modules, annotations, long lines) and every "
          "integration query is formatted by the real formatter, re-parsed (same PL tree modulo spans), compiled (same SQL) and formatted again "
-         "(unchanged).",
+         "(unchanged); the same oracle runs over two seed-independent grids: every written literal form over an adversarial alphabet (all string "
+         "kinds incl. s-/f-string text fragments, numbers, dates, identifiers, ranges) and every parenthesis-deciding position x every expression "
+         "shape (one and two levels, bare and parenthesised, short and long lines), with a ledger of the inputs that fail on the recorded tree.",
     note="line breaking is width arithmetic and is covered by the differential run only; the Lean model is the single-line form. "
          "f64 Display is modelled for decimals with few digits.",
     technique="Lean 4 proofs over regenerated formatter / parser tables + differential formatting run", ref="4/C14")
@@ -51,6 +54,111 @@ def first_diff(a, b, path=""):
                 return d
         return None
     return None if a == b else (path, a, b)
+
+
+def node_at(tree, path):
+    """the sub-value of a JSON value at a first_diff path (None if the path leaves the value)"""
+    v = tree
+    for seg in [x for x in path.split("/") if x]:
+        if isinstance(v, dict) and seg in v:
+            v = v[seg]
+        elif isinstance(v, list) and seg.isdigit() and int(seg) < len(v):
+            v = v[int(seg)]
+        else:
+            return None
+    return v
+
+
+def walk(v):
+    yield v
+    if isinstance(v, dict):
+        for x in v.values():
+            yield from walk(x)
+    elif isinstance(v, list):
+        for x in v:
+            yield from walk(x)
+
+
+VALID_IDENT = re.compile(r"^(?:\*|[a-zA-Z_$][a-zA-Z0-9_$]*)$")        # codegen/ast.rs valid_prql_ident (tied by Gen/Fmt + display_tie)
+
+
+def name_findings(tree, formatted):
+    """known defects of NAME positions the formatter writes without `write_ident_part`, judged on the original tree AND on the
+    offending rendering being present in the formatted text: [finding id]"""
+    out = []
+    for n in walk(tree):
+        if not isinstance(n, dict):
+            continue
+        fc = n.get("FuncCall")
+        if isinstance(fc, dict):
+            for k in (fc.get("named_args") or {}):
+                if (not VALID_IDENT.match(k) or k in KEYWORDS) and re.search(r"(?:^|[\s(\[{|])" + re.escape(k) + ":", formatted):
+                    out.append("fmt-named-arg-name-not-quoted")
+        for kind in ("VarDef", "ModuleDef", "TypeDef"):
+            d = n.get(kind)
+            if isinstance(d, dict) and isinstance(d.get("name"), str):
+                k = d["name"]
+                kw = {"VarDef": "let|into", "ModuleDef": "module", "TypeDef": "type"}[kind]
+                if (not VALID_IDENT.match(k) or k in KEYWORDS + ["true", "false", "null"]) and re.search(r"(?m)^\s*(?:" + kw + ") " + re.escape(k) + r"(?: |$)", formatted):
+                    out.append("fmt-definition-name-not-quoted")
+        # `*` passes valid_prql_ident (meant for `t.*`), so a NAME spelled `*` is written bare where only an identifier may stand
+        star = [n.get("alias") == "*"] + [isinstance(n.get(k), dict) and n[k].get("name") == "*" for k in ("VarDef", "ModuleDef", "TypeDef")]
+        if isinstance(n.get("Func"), dict):
+            star += [q.get("name") == "*" for k in ("params", "named_params") for q in n["Func"].get(k) or []]
+        if isinstance(n.get("FuncCall"), dict):
+            star += ["*" in (n["FuncCall"].get("named_args") or {})]
+        if any(star) and re.search(r"(?:^|[\s{(,])\*(?: =|:| )", formatted):
+            out.append("fmt-star-name-printed-bare")
+        for kind in ("SString", "FString"):
+            for it in n.get(kind) or []:
+                e = it.get("Expr") if isinstance(it, dict) else None
+                parts = ((e or {}).get("expr") or {}).get("Ident") if e else None
+                for part in parts or []:
+                    # written bare by write_ident_part, but the interpolation grammar reads only [alpha _][alnum _]* or backticks
+                    if VALID_IDENT.match(part) and part not in KEYWORDS and not re.match(r"^[^\W\d]\w*$", part) and re.search(r"\{[^{}`]*" + re.escape(part) + r"[^{}`]*\}", formatted):
+                        out.append("fmt-interpolation-ident-printed-bare")
+    return out
+
+
+def operand_children(n):
+    """(role, child) for the operand positions of one PL node"""
+    if not isinstance(n, dict):
+        return
+    for kind, roles in (("Binary", ("left", "right")), ("Unary", ("expr",)), ("Range", ("start", "end")), ("FuncCall", ("name",))):
+        d = n.get(kind)
+        if isinstance(d, dict):
+            for r in roles:
+                if isinstance(d.get(r), dict):
+                    yield kind, r, d[r]
+    for v in ((n.get("FuncCall") or {}).get("named_args") or {}).values() if isinstance(n.get("FuncCall"), dict) else ():
+        if isinstance(v, dict):
+            yield "FuncCall", "named", v
+
+
+def structure_findings(tree, formatted):
+    """known defects of the unchanged formatter that drop parentheses, judged on the ORIGINAL tree (used only for a source whose
+    formatted text fails the round trip): [finding id]"""
+    out = []
+    for n in walk(tree):
+        for kind, role, c in operand_children(n):
+            if c.get("alias") is not None:
+                out.append("fmt-alias-on-operand-not-parenthesised")        # `(k = a) + 1` is written `k = a + 1`
+            while kind == "Range" and role == "start" and isinstance(c.get("Unary"), dict) and isinstance(c["Unary"].get("expr"), dict):
+                c = c["Unary"]["expr"]              # `(-($1))..c`: the parameter is still the last token before `..`
+            if kind == "Range" and role == "start" and "Param" in c and re.search(r"\$\w+\.\.", formatted):
+                out.append("fmt-param-range-start-merges")                   # `($1)..c` is written `$1..c`, lexed as the parameter `1..c`
+        f = n.get("Func") if isinstance(n, dict) else None
+        inner = [x.get(k) for x in (n.get("Case") or []) if isinstance(x, dict) for k in ("condition", "value")] if isinstance(n, dict) and isinstance(n.get("Case"), list) else []
+        if isinstance(f, dict):
+            inner.append(f.get("body"))
+        if any(isinstance(x, dict) and "Func" in x for x in inner):
+            out.append("fmt-lambda-in-case-or-body-not-parenthesised")       # `case [(func x -> x) => c]`, `func x -> (func y -> x)` lose the parentheses
+        if isinstance(f, dict):
+            for q in f.get("named_params") or []:
+                dv = q.get("default_value")
+                if isinstance(dv, dict) and (set(dv) & {"FuncCall", "Func", "Binary", "Unary", "Range"} or dv.get("alias") is not None):
+                    out.append("fmt-named-param-default-not-parenthesised")  # `func x n:(g 1) -> x` is written `func x n:g 1 -> x`
+    return out
 
 
 # -------------------------------------------------------------------------------------------------
@@ -140,9 +248,38 @@ def statement_sources(rng, n):
     return out
 
 
-def classify_ast_diff(src, d):
-    """known-finding id for a first AST difference (path, original value, value after formatting)"""
+def classify_ast_diff(src, d, tree=None, formatted=""):
+    """known-finding id for a first AST difference (path, original value, value after formatting); tree = the original PL"""
     path, a, b = d
+    if tree is not None:
+        parent = node_at(tree, path.rsplit("/", 1)[0])
+        pl_ = parent.get("Literal") if isinstance(parent, dict) else None
+        if isinstance(pl_, dict) and isinstance(pl_.get("String"), str) and "'" in pl_["String"] and '"' in pl_["String"] and a is None:
+            return "fmt-string-mixed-quotes"            # the literal came back as several tokens (a call of strings)
+        if isinstance(pl_, dict) and "Float" in pl_ and a is None and path.endswith("/Ident") and b == ["inf"]:
+            return "fmt-float-overflow-printed-inf"
+        segs = path.split("/")
+        sub = tree
+        for i in range(len(segs), 0, -1):
+            if segs[i - 1] in ("FuncCall", "SString", "FString"):
+                sub = node_at(tree, "/".join(segs[:i - 1]))
+                break
+        nf = name_findings(sub, formatted)
+        if nf:
+            return nf[0]
+        # dropped parentheses: the defect must sit in the subtree that changed (walk up to the nearest enclosing node that shows it)
+        if path.endswith("/alias") and isinstance(a, str) and b is None and len(segs) >= 3 and (segs[-2] in ("left", "right", "expr", "start", "end", "name") or segs[-3] == "named_args") \
+                and "fmt-alias-on-operand-not-parenthesised" in structure_findings(node_at(tree, "/".join(segs[:-3])), formatted):
+            return "fmt-alias-on-operand-not-parenthesised"
+        for i in range(len(segs), 0, -1):
+            if segs[i - 1] == "Func":
+                sf = structure_findings({"Func": {k: v for k, v in (node_at(tree, "/".join(segs[:i])) or {}).items() if k == "named_params"}}, formatted)
+                if "fmt-named-param-default-not-parenthesised" in sf and "named_params" in segs[i:i + 1]:
+                    return "fmt-named-param-default-not-parenthesised"
+        if re.search(r"\$\w+\.\.", formatted):
+            for i in range(len(segs) - 1, max(len(segs) - 4, 0), -1):
+                if "fmt-param-range-start-merges" in structure_findings(node_at(tree, "/".join(segs[:i])), formatted):
+                    return "fmt-param-range-start-merges"
 
     def lit(x):
         return x.get("Literal") if isinstance(x, dict) and "Literal" in x else None
@@ -151,7 +288,7 @@ def classify_ast_diff(src, d):
     if "Literal" in path:
         if "/Float" in path or (isinstance(a, (int, float)) and "Float" in path):
             return "fmt-float-printed-without-fraction"
-        if "/String" in path:
+        if "/String" in path and isinstance(a, str) and "'" in a and '"' in a:
             return "fmt-string-mixed-quotes"
     if isinstance(a, dict) and isinstance(b, dict) and set(a) != set(b) and ("Float" in a and "Integer" in b):
         return "fmt-float-printed-without-fraction"
@@ -163,6 +300,8 @@ def classify_ast_diff(src, d):
         return "fmt-range-bound-pow-not-parenthesised"      # a Range with a `**` bound came back as `**` over a Range
     if re.search(r"/Func/named_params/\d+/ty$", path) and b is None:
         return "fmt-named-param-type-dropped"
+    if re.search(r"/[SF]String/\d+/Expr/format$", path) and isinstance(a, str) and b is None:
+        return "fmt-interpolation-format-dropped"      # s"{a:>10}" is written s"{a}"
     return None
 
 
@@ -181,8 +320,17 @@ def run(ctx):
                 "with minimal and with full parentheses after `let x =`: real formatter text vs the Lean model fmtExpr, re-parse, second "
                 "formatting; (ii) generated statement-level sources (every literal kind, backtick identifiers, named arguments, nested "
                 "pipelines, functions, modules, annotations, headers, long lines that force wrapping, random pipelines) and the integration "
-                "queries of /repo: fmt, re-parse (PL JSON modulo spans), compile both (SQL equal), fmt again (unchanged); a case = one source; "
-                "non-trivial = the source parses")
+                "queries of /repo: fmt, re-parse (PL JSON modulo spans), compile both (SQL equal), fmt again (unchanged); (iii) seed-independent "
+                "grids (tools/c14grid.py), same oracle: every WRITTEN literal form (strings of both quote styles and delimiter lengths 1..7, raw, s-/f-strings "
+                "with text fragments around interpolations, over backslash escapes / both quotes / braces / doubled braces / newline / tab / unicode; integers, "
+                "floats, dates, units, ranges, identifiers with backticks, keywords, this./that.) as a let value, tuple item, call argument; every syntactic "
+                "position in which the formatter decides about parentheses (operands of every binary and unary operator, positional and named arguments, "
+                "callee, pipeline stages, tuple / array items, case arms, range bounds, lambda bodies and defaults, interpolations, aliases: 82 expression-level and 37 statement-level "
+                "positions incl. sort keys, window / join arguments, annotations, long lines) x every expression shape (91: identifiers, literals, unary, calls "
+                "with positional / named / nested / lambda arguments, pipelines, lambdas, one binary operator per level, ranges, tuples, arrays, case, s-/f-strings), "
+                "bare and parenthesised, short and long names, one level everywhere and two levels over the core sets (all x all in the thorough tier); plus random "
+                "nestings. A deterministic input that fails is excused by a listed finding only if that very input is in the ledger known_cases/C14.json; "
+                "a case = one source; non-trivial = the source parses")
     if not (br.cargo_ok and br.drv_ok):
         return
     quick = ctx.tier == "quick"
@@ -244,7 +392,25 @@ def run(ctx):
     stm = statement_sources(ctx.rng, 150 if quick else 2000)
     for f in sorted(glob.glob(os.path.join(vlib.REPO, "prqlc/prqlc/tests/integration/queries/*.prql"))):
         stm.append(("integration-query", open(f, encoding="utf-8").read()))
-    check_sources(ctx, stm, compile_too=True)
+    check_sources(ctx, [x for x in stm if x[0] != "random"], compile_too=True, det=True)
+    check_sources(ctx, [x for x in stm if x[0] == "random"], compile_too=True)
+
+    # ---------------- (iii) seed-independent grids: written literal forms; parenthesis positions x expression shapes
+    lit = c14grid.written_literals(not quick)
+    par = c14grid.paren_sources(not quick)
+    rnd = c14grid.random_literals(ctx.rng, 2000 if quick else 30000) + c14grid.random_paren_sources(ctx.rng, 3000 if quick else 60000, 3 if quick else 4)
+    allsrc = list(dict.fromkeys(lit + par + rnd))
+    compiled = [x for x in allsrc if x[0].endswith("-stage") or x[0].startswith(("stmt:main", "stmt2:main"))]
+    t0 = time.time()
+    isdet = lambda x: not x[0].endswith("random")
+    cs = set(compiled)
+    rest = [x for x in allsrc if x not in cs]
+    check_sources(ctx, [x for x in compiled if isdet(x)], compile_too=True, det=True)
+    check_sources(ctx, [x for x in compiled if not isdet(x)], compile_too=True)
+    check_sources(ctx, [x for x in rest if isdet(x)], compile_too=False, det=True)
+    check_sources(ctx, [x for x in rest if not isdet(x)], compile_too=False)
+    ctx.count(f"grids: {len(lit)} written-literal sources, {len(par)} position x shape sources, {len(rnd)} random; {len(compiled)} also compiled")
+    ctx.coverage_extra["grid_seconds"] = round(time.time() - t0, 1)
 
 
 def display_tie(ctx):
@@ -292,7 +458,7 @@ def display_tie(ctx):
     ctx.obligation("correspondence: Literal / identifier display = Model.Fmt (litDisplay, displayIdentPart, writeIdentPart)", nbad == 0, f"{len(ans)} values")
 
 
-def check_sources(ctx, sources, compile_too):
+def check_sources(ctx, sources, compile_too, det=False):
     """fmt, re-parse, compile, fmt again; returns per source {"fmt": text or None}"""
     reqs = []
     for kind, s in sources:
@@ -316,19 +482,20 @@ def check_sources(ctx, sources, compile_too):
         pl, f = ans[i * step], ans[i * step + 1]
         comp = ans[i * step + 2] if compile_too else None
         parses = "pl" in pl
+        dk = ("C14", s) if det else None         # identity of a seed-independent input (ledger of inputs that fail on the recorded tree)
         ctx.case((kind, s), nontrivial=parses)
-        ctx.count(f"kind={kind}: {'parses' if parses else 'rejected by the parser'}")
+        ctx.count(f"kind={kind.split(':')[0]}: {'parses' if parses else 'rejected by the parser'}")
         if not parses:
             out.append(None)
             if "prql" in f:
-                ctx.oracle_failure(None, "a source that does not parse was formatted", {"prql": s})
+                ctx.oracle_failure(None, "a source that does not parse was formatted", {"prql": s}, det_key=dk)
             continue
         if "prql" not in f:
             out.append({"fmt": None})
             fid = None
             if "panic" in f:
                 fid = None
-            ctx.oracle_failure(fid, f"the formatter failed on a source that parses: {str(f)[:200]}", {"prql": s, "observed": f})
+            ctx.oracle_failure(fid, f"the formatter failed on a source that parses: {str(f)[:200]}", {"prql": s, "observed": f}, det_key=dk)
             continue
         text = f["prql"]
         out.append({"fmt": text})
@@ -343,21 +510,26 @@ def check_sources(ctx, sources, compile_too):
                 fid = "fmt-float-printed-without-fraction"
             if fid is None and any(("'" in m and '"' in m) for m in re.findall(r"(?:\"(?:[^\"\\]|\\.)*\"|'(?:[^'\\]|\\.)*')", s)):
                 fid = "fmt-string-mixed-quotes"
-            ctx.oracle_failure(fid, f"formatted text does not parse: {text[:120]!r}", {**replay, "observed": pl2})
+            if fid is None and any(isinstance(n, dict) and isinstance(n.get("Literal"), dict) and isinstance(n["Literal"].get("String"), str)
+                                   and "'" in n["Literal"]["String"] and '"' in n["Literal"]["String"] for n in walk(pl["pl"])):
+                fid = "fmt-string-mixed-quotes"         # same predicate on the lexed value (the regex above does not read triple-quoted forms)
+            if fid is None:
+                fid = (name_findings(pl["pl"], text) + structure_findings(pl["pl"], text) or [None])[0]
+            ctx.oracle_failure(fid, f"formatted text does not parse: {text[:120]!r}", {**replay, "observed": pl2}, det_key=dk)
             continue
         d = first_diff(strip_spans(pl["pl"]), strip_spans(pl2["pl"]))
         if d:
-            fid = classify_ast_diff(s, d) or classify_text(text)
+            fid = classify_ast_diff(s, d, strip_spans(pl["pl"]), text) or classify_text(text)
             if fid is None and re.search(r"`(" + "|".join(KEYWORDS + ["true", "false", "null"]) + r")`", s):
                 fid = "fmt-keyword-identifier-printed-bare"
             ctx.oracle_failure(fid, f"re-parsed tree differs at {d[0]}: {json.dumps(d[1])[:80]} became {json.dumps(d[2])[:80]} (formatted: {text[:100]!r})",
-                               {**replay, "path": d[0]})
+                               {**replay, "path": d[0]}, det_key=dk)
             continue
         if f2.get("prql") != text and sorted(re.split(r"\s+", f2.get("prql", ""))) == sorted(re.split(r"\s+", text)) and len(re.findall(r"\b\w+:", text)) >= 2:
             ctx.oracle_failure("fmt-named-args-order-unstable", f"named arguments are printed in a different order by the second pass: {text[:80]!r} vs {f2['prql'][:80]!r}", {**replay, "second": f2})
             continue
         if f2.get("prql") != text:
-            ctx.oracle_failure(None, f"formatting is not idempotent: second pass gives {str(f2.get('prql', f2))[:120]!r}", {**replay, "second": f2})
+            ctx.oracle_failure(None, f"formatting is not idempotent: second pass gives {str(f2.get('prql', f2))[:120]!r}", {**replay, "second": f2}, det_key=dk)
             continue
         if compile_too:
             same = (comp.get("sql") == comp2.get("sql")) and (("sql" in comp) == ("sql" in comp2))
@@ -365,9 +537,9 @@ def check_sources(ctx, sources, compile_too):
                 same = [e.get("reason") for e in comp.get("errors", [])] == [e.get("reason") for e in comp2.get("errors", [])]
             if not same and any("out of bounds of the source" in str(x.get("panic", "")) for x in (comp, comp2)):
                 ctx.oracle_failure("compile-panics-composing-error-after-multibyte", "compile panics while composing an error message after multi-byte text (one of source / formatted source)",
-                                   {**replay, "sql": comp, "sql_formatted": comp2})
+                                   {**replay, "sql": comp, "sql_formatted": comp2}, det_key=dk)
             elif not same:
-                ctx.oracle_failure(None, "source and formatted source compile differently", {**replay, "sql": comp, "sql_formatted": comp2})
+                ctx.oracle_failure(None, "source and formatted source compile differently", {**replay, "sql": comp, "sql_formatted": comp2}, det_key=dk)
     return out
 
 
